@@ -207,12 +207,17 @@ Definition merge_signature (c : merge_case) : N * N * N :=
 (* impl class: 0 ok, 1 error, 2 crash *)
 Record cap_case := { cc_match_sets : N; cc_domain_sets : list N; cc_impl : N }.
 Definition check_cap (c : cap_case) : list N :=
-  let m := build_userspace (cc_domain_sets c) in
+  let m := build_userspace (cc_match_sets c) (cc_domain_sets c) in
+  let over := max_match_set_len <? cc_match_sets c in
   let e_im := match m, cc_impl c with
               | WOk _, 0 | WErr, 1 | WCrashed, 2 => []
               | _, _ => [1]
               end in
-  (* the spec demands an error, never a crash; whether an over-limit program without a domain set beyond
-     the limit is refused is decided by the kernel-side builder, which the stub build cannot run *)
-  let e_is := if cc_impl c =? 2 then [9] else [] in
-  e_im ++ e_is.
+  (* the spec: never a crash; a program over the limit is answered with an error *)
+  let e_is := if cc_impl c =? 2 then [9] else if over && (cc_impl c =? 0) then [2] else [] in
+  let e_ms := match m with
+              | WCrashed => [3]
+              | WOk _ => if over then [3] else []
+              | WErr => []
+              end in
+  e_im ++ e_is ++ e_ms.
